@@ -1,21 +1,25 @@
 //@unit props=C15,C13 tier=quick rlimit=30
-//@file src/repr/edge_list/mod.rs
+//@file src/repr/adjacency_list/mod.rs
 #![feature(allocator_api)]
 use vstd::prelude::*;
 use vstd::slice::SliceIndexSpec;
 use vstd::std_specs::iter::IteratorSpec;
 use std::collections::BTreeSet;
 use std::collections::btree_set;
+use core::cmp::Ordering;
 verus! {
 global size_of usize == 8;
 //@include prelude/std_contracts.rs
+//@include prelude/iter_wrappers.rs
 //@include prelude/conversions_std.rs
 //@include prelude/random_more_std.rs
 //@include prelude/list_core_std.rs
-//@include prelude/edge_list_random_std.rs
+//@include prelude/list_ops_std.rs
+//@include prelude/list_random_std.rs
 
-//@import units/inc/edge_list_core.inc.rs
+//@import units/inc/list_core.inc.rs
+//@import units/inc/list_ops.inc.rs
 
-//@include units/inc/edge_list_random.inc.rs
+//@include units/inc/list_random.inc.rs
 } // verus!
 fn main() {}
